@@ -36,6 +36,12 @@ def code : TOrd → String
 
 end TOrd
 
+/-- result of evaluating a user condition or a generated check: true, false, or an exception -/
+inductive Tri | yes | no | raises
+deriving DecidableEq, Repr, Inhabited
+
+def Tri.ofBool (b : Bool) : Tri := if b then .yes else .no
+
 /-- result of the two `issubclass` tests at the end of `typeorder` (mro.py L96-106) -/
 def ofSub (sx sy : Bool) : TOrd :=
   if sx && sy then .same else if sx then .less else if sy then .more else .none
